@@ -233,7 +233,9 @@ func (w *World) verifyFunc(fn *ssa.Function, c *FuncContract) (res *FuncResult) 
 	}
 	eenv.lookup = func(s *State, name string) (*Val, bool) { return fr.lookupLocal(s, name, token.NoPos) }
 	for _, e := range c.Ensures {
-		if e.Assumed {
+		if e.Assumed || c.Trusted {
+			// assumed postconditions (of a trusted summary whose gates are
+			// verified) are not checked on the body
 			continue
 		}
 		g, err := eenv.evalBool(e.Expr)
@@ -253,7 +255,7 @@ func (w *World) verifyFunc(fn *ssa.Function, c *FuncContract) (res *FuncResult) 
 	}
 	// ghost frame: callers assume that a ghost variable the assigns clause does
 	// not name keeps its value (`assigns *` speaks about program memory only)
-	{
+	if !c.Trusted {
 		listed := map[string]bool{}
 		for _, a := range c.Assigns {
 			if strings.HasPrefix(a, "ghost.") {
